@@ -182,7 +182,7 @@ func TestVerifC16Kernel(t *testing.T) {
 	polNames := []string{"min_last", "min_moving", "min_avg", "random"}
 	nScn := 40
 	if VThorough() {
-		nScn = 300
+		nScn = 600
 	}
 	for sc := 0; sc < nScn; sc++ {
 		dialer.ResetGlobalProxyStateForReload()
